@@ -25,6 +25,7 @@ import (
 	"io"
 	"net/http"
 	"net/url"
+	"slices"
 	"time"
 
 	"github.com/rs/zerolog"
@@ -186,10 +187,20 @@ func (e Endpoint) Hash() []byte {
 	hash.Write(stringx.ToBytes(e.URL))
 	hash.Write(stringx.ToBytes(e.Method))
 
+	// the iteration order of a map is random and names and values must not run into each other
+	names := make([]string, 0, len(e.Headers))
+	for name := range e.Headers {
+		names = append(names, name)
+	}
+
+	slices.Sort(names)
+
 	buf := bytes.NewBufferString("")
-	for k, v := range e.Headers {
-		buf.Write(stringx.ToBytes(k))
-		buf.Write(stringx.ToBytes(v))
+	for _, name := range names {
+		buf.Write(stringx.ToBytes(name))
+		buf.WriteByte(0)
+		buf.Write(stringx.ToBytes(e.Headers[name]))
+		buf.WriteByte(0)
 	}
 
 	hash.Write(buf.Bytes())
